@@ -446,11 +446,13 @@ Definition glob1 (p name : string) : bool :=
   | String "*"%char suf => ends_with (lower suf) (lower name)
   | _ => String.eqb (lower p) (lower name)
   end.
-(* self.fs.filterdir("/", files=patterns, exclude_dirs=["*"]): the files of the listing whose name
-   matches one of the patterns *)
+(* self.fs.filterdir("/", files=patterns, exclude_dirs=patterns'): pyfilesystem keeps a file when its
+   name matches one of `files`, and a directory unless its name matches one of `exclude_dirs` (the
+   `files` patterns do not apply to directories) *)
 Definition fs_filterdir (self : fsreg) (path : string) (files : list string) (exclude_dirs : list string) : list finfo :=
   map (fun e => FI (fst (fst e)))
-      (filter (fun e => snd (fst e) && existsb (fun p => glob1 p (fst (fst e))) files) (fsr_listing self)).
+      (filter (fun e : string * bool * grec => if snd (fst e) then existsb (fun p => glob1 p (fst (fst e))) files
+                        else negb (existsb (fun p => glob1 p (fst (fst e))) exclude_dirs)) (fsr_listing self)).
 (* fs.path.splitext(name) *)
 Definition py_splitext (name : string) : string * string :=
   let st := splitext_stem name in (st, substring (String.length st) (String.length name - String.length st) name).
